@@ -345,6 +345,10 @@ class MinGenSet():
                     "solve_time": time.perf_counter() - start_time,
                     "status": self.solver.get_model_status(),
                 }
+                if self.solver.get_model_status() != sw.SolverWrapper.infeasible_status:
+                    # The solver stopped for another reason (e.g. time limit), so we cannot conclude that
+                    # there is no generating set with k elements. In this case, we stop the search.
+                    return False
         return False
 
     def is_solved(self):
